@@ -236,6 +236,11 @@ _BINOPS = {
     ast.BitAnd: operator.and_, ast.BitXor: operator.xor, ast.LShift: operator.lshift, ast.RShift: operator.rshift,
     ast.MatMult: operator.matmul,
 }
+_DUNDER = {
+    ast.Add: ('__add__', '__radd__'), ast.Sub: ('__sub__', '__rsub__'), ast.Mult: ('__mul__', '__rmul__'),
+    ast.Mod: ('__mod__', '__rmod__'), ast.BitOr: ('__or__', '__ror__'), ast.BitAnd: ('__and__', '__rand__'),
+    ast.Div: ('__truediv__', '__rtruediv__'),
+}
 _CMPOPS = {
     ast.Eq: operator.eq, ast.NotEq: operator.ne, ast.Lt: operator.lt, ast.LtE: operator.le,
     ast.Gt: operator.gt, ast.GtE: operator.ge,
@@ -432,6 +437,11 @@ class Interp:
             return self.construct(f, list(args), kwargs)
         if isinstance(f, (staticmethod,)):
             return self.call(f.__func__, args, kwargs)
+        # --- a callable instance of a repository class: its __call__ is interpreted
+        if not isinstance(f, (types.BuiltinFunctionType, types.MethodDescriptorType, types.ModuleType)):
+            cm = _static_lookup(type(f), '__call__')
+            if cm is not None and isinstance(cm[0], types.FunctionType) and _is_repo_function(cm[0]):
+                return self.call_function_object(cm[0], [f] + list(args), kwargs, cm[1], bound_self=f)
         # --- builtins, method descriptors, other callables
         return self.call_native(f, list(args), kwargs)
 
@@ -731,8 +741,19 @@ class Interp:
         if isinstance(b, SBool):
             b = SInt(z3.If(b.t, 1, 0))
         sa, sb = isinstance(a, Sym), isinstance(b, Sym)
+        if (sa or sb) and not (isinstance(a, Opaque) or isinstance(b, Opaque)):
+            # a user-defined operator of a repository / model class with a symbolic operand (p / name)
+            r = self._user_binop(opcls, a, b)
+            if r is not NotImplemented:
+                return r
         if not sa and not sb:
             if isinstance(a, Opaque) or isinstance(b, Opaque):
+                # operators of opaque objects are methods of their interface (__truediv__, __add__, ...)
+                dn = _DUNDER.get(opcls)
+                if dn is not None and isinstance(a, Opaque) and self.reg.opaque_has(self, a, dn[0]):
+                    return self.reg.call_opaque(self, a, dn[0], [b], {})
+                if dn is not None and isinstance(b, Opaque) and self.reg.opaque_has(self, b, dn[1]):
+                    return self.reg.call_opaque(self, b, dn[1], [a], {})
                 raise Unsupported('binary operator on opaque object')
             if opcls is ast.Mod and isinstance(a, str) and contains_sym(b):
                 return SStr(self.st.fresh_str('fmt'))
@@ -777,13 +798,21 @@ class Interp:
         raise Unsupported('binary operator %s on %r, %r' % (opcls.__name__, type(a).__name__, type(b).__name__))
 
     def _user_binop(self, opcls, a, b):
-        name = {ast.Add: '__add__', ast.Sub: '__sub__', ast.Mult: '__mul__', ast.Mod: '__mod__',
-                ast.BitOr: '__or__', ast.BitAnd: '__and__'}.get(opcls)
-        if name is None or isinstance(a, (int, str, list, tuple, dict, float, type(None))):
+        names = _DUNDER.get(opcls)
+        if names is None:
             return NotImplemented
-        m = _static_lookup(type(a), name)
-        if m is not None and isinstance(m[0], types.FunctionType) and _is_repo_function(m[0]):
-            return self.call_function_object(m[0], [a, b], {}, m[1])
+        plain = (int, str, list, tuple, dict, float, type(None), Sym)
+        if not isinstance(a, plain):
+            m = _static_lookup(type(a), names[0])
+            if m is not None and isinstance(m[0], types.FunctionType) and _is_repo_function(m[0]):
+                r = self.call_function_object(m[0], [a, b], {}, m[1])
+                if r is not NotImplemented:
+                    return r
+        if not isinstance(b, plain):
+            # reflected operator of the right operand ('name' / path)
+            m = _static_lookup(type(b), names[1])
+            if m is not None and isinstance(m[0], types.FunctionType) and _is_repo_function(m[0]):
+                return self.call_function_object(m[0], [b, a], {}, m[1])
         return NotImplemented
 
     def eq(self, a, b):
